@@ -1,6 +1,6 @@
 """C01 — register allocation preserves the meaning of the program."""
 
-FILES = ["c09.go", "c02.go", "c01.go"]
+FILES = ["c09.go", "c02.go", "c01.go", "c01x.go"]
 
 def run(ctx):
     if not ctx.build_harness(FILES):
@@ -17,13 +17,21 @@ def run(ctx):
     ctx.run_corpus("c01", nontrivial=nt)
     n = 2500 if ctx.tier == "quick" else 60000
     ctx.differential("c01", n, nontrivial=nt)
+    # measured end to end on the CPU: avo-compiled vs private-storage execution of the same program
+    import os
+    nx, trials = (150, 48) if ctx.tier == "quick" else (6000, 256)
+    ctx.differential("c01x", nx, extra=["-dir", os.path.join(ctx.dir, "x-gen"), "-trials", str(trials)],
+                     nontrivial=lambda req, resp: " same " in req)
     ctx.coverage["rule"] = ("generated functions (all GP widths incl. 8H views of the same virtual, XMM/YMM/ZMM, K, author-chosen physical "
                             "and implicit-register instructions, pressure below and above the register file, loops, diamonds, dead "
                             "definitions) through the real LabelTarget/CFG/ZeroExtend/Liveness/AllocateRegisters/BindRegisters/"
                             "VerifyAllocation. (i) acceptor = hypotheses of theorem accepted_preserves evaluated on the implementation's "
                             "own use/def/CFG/live sets/allocation (post-fixpoint, no definition onto a different live-out byte, allocation "
                             "shape), plus encodability of high-byte registers; (ii) exact comparison of allocation / error class with the "
-                            "Lean model of the allocator; non-trivial = compiled successfully with at least one virtual register")
+                            "Lean model of the allocator; (iii) measured: generated GP programs (all widths, 8H views, implicit MULQ/CL, "
+                            "forward branches, flags consumers) are compiled by the real pipeline AND rewritten with every virtual register in "
+                            "its own stack slot; both are assembled, linked and executed on random and boundary argument vectors and must "
+                            "return the same results; non-trivial = compiled successfully with at least one virtual register")
     ctx.assumptions += [
         "real x86 instructions are functions of their declared input bytes and write only their declared output bytes (C04); a VEX-encoded write to an XMM/YMM view also zeroes the upper ZMM bits, which avo's byte masks do not express (DESIGN §6 F12: modelled-not-verified)",
         "flags and other global machine state are shared by both executions (part of Mem in the abstract machine)",
